@@ -134,6 +134,26 @@ def waitBelow (kind : Container) (exit : Nat → Int) (limit : Nat) :
       | .error c => .failed c
       | .ok procs' => waitBelow kind exit limit procs' rest
 
+/-- the in-loop poll of `select_all_markers`
+```
+while len(process_dict) >= n_processors or not have_chosen_parent:
+    k0 = set(process_dict.keys()); process_dict = winnow_process_dict(process_dict)
+    k1 = set(process_dict.keys())
+    if len(k1) < len(k0): completed_parents |= k0 - k1; have_chosen_parent = True
+```
+`blocked` = `not have_chosen_parent`: no work item could be chosen in this
+iteration (a "behemoth" is still running); it is cleared as soon as a poll
+removes a process -/
+def waitBelowOrBlocked (kind : Container) (exit : Nat → Int) (limit : Nat) :
+    Bool → Procs → List Poll → WaitRes
+  | blocked, procs, [] => if procs.length < limit && !blocked then .done procs [] else .spin
+  | blocked, procs, poll :: rest =>
+    if procs.length < limit && !blocked then .done procs (poll :: rest)
+    else match winnow kind exit poll procs with
+      | .error c => .failed c
+      | .ok procs' =>
+        waitBelowOrBlocked kind exit limit (blocked && !(procs'.length < procs.length)) procs' rest
+
 /-! ### skeleton IR of a parallel stage (the translator's target) -/
 
 /-- statements of the dispatch loop body -/
@@ -146,6 +166,9 @@ inductive LoopStmt where
   | start (registered : Bool)
   /-- `while len(c) >= n_processors: c = winnow(c)` -/
   | pollWhileFull
+  /-- `while len(c) >= n_processors or not have_chosen: c = winnow(c); if
+  shrank: have_chosen = True` (`select_all_markers`) -/
+  | pollWhileFullOrBlocked
   deriving Repr, DecidableEq, Inhabited
 
 /-- statements of the stage, in source order (calls into the next function of
@@ -200,6 +223,10 @@ structure Env where
   /-- key under which worker `w` is registered (dict stages) -/
   keyOf : Nat → Nat
   exit : Nat → Int
+  /-- `select_all_markers`: in the iteration that follows the start of worker
+  `w` no further work item can be chosen yet (a behemoth is running); any
+  pattern is allowed, the theorems quantify over it -/
+  blocked : Nat → Bool := fun _ => false
 
 structure St where
   procs : Procs := []
@@ -230,6 +257,11 @@ def execLoopStmt (kind : Container) (env : Env) : LoopStmt → St → Res
                           else s.procs }
   | .pollWhileFull, s =>
     match waitBelow kind env.exit env.nProc s.procs s.sched with
+    | .done p sc => .ok { s with procs := p, sched := sc }
+    | .failed c => .failed c s
+    | .spin => .spin s
+  | .pollWhileFullOrBlocked, s =>
+    match waitBelowOrBlocked kind env.exit env.nProc (env.blocked s.started) s.procs s.sched with
     | .done p sc => .ok { s with procs := p, sched := sc }
     | .failed c => .failed c s
     | .spin => .spin s
